@@ -367,3 +367,62 @@ Lemma getdate_fixed_rejects : getdate F64 true 0x1p+1000%float [0; 0; 0] = Ret 1
                               getdate F64 true nan [0; 0; 0] = Ret 1 [0; 0; 0] /\
                               getdate F64 true 20000229%float [0; 0; 0] = Ret 0 [2000; 2; 29].
 Proof. vm_compute. repeat split. Qed.
+
+(* ================================================================== *)
+(* c_dateutils_getdate over the reals with a NaN: any day number *)
+From Coq Require Import Reals Lra.
+
+Lemma Int_part_bounds (x : R) : (IZR (Int_part x) <= x < IZR (Int_part x) + 1)%R.
+Proof. destruct (base_Int_part x). lra. Qed.
+
+Lemma getdate_safe_RN : forall day date, Zlen date = 3 -> safe (getdate RN true day date).
+Proof.
+  intros [x|] date Hl; unfold getdate; cbn [andb nisnan RN orb]; [|exact I].
+  cbn [nltb RN ocmp n0 nofZ].
+  unfold Rltb. destruct (Rlt_dec x 0) as [H0|H0]; [exact I|].
+  destruct (Rlt_dec (IZR 2147483647) x) as [H1|H1]; [exact I|]. cbn [orb].
+  apply Rnot_lt_le in H0. apply Rnot_lt_le in H1.
+  unfold c1em4, c1em2. cbn [nmul ndiv n1 nofZ RN olift2 ntrunc obind].
+  unfold R_trunc.
+  set (xa := (x * (1 / IZR 10000))%R). set (xb := (x * (1 / IZR 100))%R).
+  assert (Hxa : (0 <= xa)%R) by (unfold xa; lra).
+  assert (Hxb : (0 <= xb)%R) by (unfold xb; lra).
+  destruct (Rle_dec 0 xa) as [_|C]; [|contradiction].
+  destruct (Rle_dec 0 xb) as [_|C]; [|contradiction].
+  destruct (Rle_dec 0 x) as [_|C]; [|contradiction].
+  set (a := Int_part xa). set (b := Int_part xb). set (d := Int_part x).
+  assert (Ba := Int_part_bounds xa). assert (Bb := Int_part_bounds xb). assert (Bd := Int_part_bounds x).
+  fold a in Ba. fold b in Bb. fold d in Bd.
+  assert (A0 : 0 <= a) by (apply Z.lt_succ_r; apply lt_IZR; rewrite succ_IZR; lra).
+  assert (A1 : a <= 214748) by (assert (a < 214749) by (apply lt_IZR; unfold xa in *; lra); lia).
+  assert (B0 : 100 * a <= b).
+  { apply Z.lt_succ_r. apply lt_IZR. rewrite succ_IZR, mult_IZR. unfold xa, xb in *. lra. }
+  assert (B1 : b <= 100 * a + 99).
+  { apply Z.lt_succ_r. apply lt_IZR. rewrite succ_IZR, plus_IZR, mult_IZR. unfold xa, xb in *. lra. }
+  assert (D0 : 100 * b <= d).
+  { apply Z.lt_succ_r. apply lt_IZR. rewrite succ_IZR, mult_IZR. unfold xb in *. lra. }
+  assert (D1 : d <= 100 * b + 99).
+  { apply Z.lt_succ_r. apply lt_IZR. rewrite succ_IZR, plus_IZR, mult_IZR. unfold xb in *. lra. }
+  assert (D2 : d <= 2147483647) by (apply le_IZR; lra).
+  unfold cast32, in_int32.
+  replace ((-2147483648 <=? a) && (a <=? 2147483647)) with true
+    by (symmetry; apply andb_true_intro; split; apply Z.leb_le; lia).
+  cbn [bindr].
+  replace ((-2147483648 <=? b) && (b <=? 2147483647)) with true
+    by (symmetry; apply andb_true_intro; split; apply Z.leb_le; lia).
+  cbn [bindr].
+  rewrite (chk32_ok (a * 100)) by lia. cbn [bindr].
+  rewrite (chk32_ok (b - a * 100)) by lia. cbn [bindr].
+  replace ((-2147483648 <=? d) && (d <=? 2147483647)) with true
+    by (symmetry; apply andb_true_intro; split; apply Z.leb_le; lia).
+  cbn [bindr].
+  rewrite (chk32_ok (a * 10000)) by lia. cbn [bindr].
+  rewrite (chk32_ok (d - a * 10000)) by lia. cbn [bindr].
+  rewrite (chk32_ok ((b - a * 100) * 100)) by lia. cbn [bindr].
+  rewrite (chk32_ok (d - a * 10000 - (b - a * 100) * 100)) by lia. cbn [bindr].
+  destruct ((b - a * 100 <? 0) || (12 <? b - a * 100)); [exact I|].
+  destruct (daysinmonth_ok a (b - a * 100)) as (n & En & _). rewrite En. cbn [bindr].
+  destruct (_ || _); [exact I|].
+  acc3. rewrite (wr_ok "date" _ 1) by (rewrite Zlen_upd; lia). cbn [bindr].
+  rewrite (wr_ok "date" _ 2) by (rewrite !Zlen_upd; lia). exact I.
+Qed.
